@@ -111,6 +111,8 @@ func (r *RecReplayer) Replay(sub sse.Subscription) error {
 	name := "?"
 	if c, ok := sub.Client.(*RecClient); ok {
 		name = c.Name
+	} else if n, ok := sub.Client.(interface{ ClientName() string }); ok {
+		name = n.ClientName() // a wrapper around a RecClient
 	}
 	e := RLog{Kind: "replay", Sub: name, Start: start, ID: sub.LastEventID.String(), IDSet: sub.LastEventID.IsSet(), Topics: append([]string(nil), sub.Topics...), VTime: time.Now()}
 	fault := r.ReplayFault[n]
